@@ -360,6 +360,16 @@ func vRunC13(c *vCase) {
 			c.Cov("refused_model_requests", 1)
 		}
 	}
+	if nbases == 0 && npre > 3 && vChance(r, 0.3) {
+		// a record of its own shape (as the variable-length edge-multi trigger cuts them): fewer pre-trigger samples and/or a
+		// shorter tail than the channel is configured for. The definitions are over the record's own pre-trigger part.
+		k := r.Intn(npre - 2)
+		t := r.Intn(n - npre)
+		data = data[k : n-t]
+		npre -= k
+		n = len(data)
+		c.Cov("records_with_own_shape", 1)
+	}
 	rec := &DataRecord{data: data, presamples: npre, signed: signed, channelIndex: 0}
 	dsp.AnalyzeData([]*DataRecord{rec})
 
